@@ -78,6 +78,21 @@ def set_log_level(name: str) -> None:
     lc.logger.setLevel({"debug": logging.DEBUG, "info": logging.INFO, "warning": logging.WARNING}[name])
 
 
+class log_level:
+    """with real.log_level("debug"): ...  - ambient logger level for the duration of a block."""
+
+    def __init__(self, name: str):
+        self.name = name
+
+    def __enter__(self):
+        set_log_level(self.name)
+        return self
+
+    def __exit__(self, *a):
+        set_log_level("warning")
+        return False
+
+
 def dump_rule(doc: Any) -> str:
     return yaml.safe_dump(doc, sort_keys=False, default_flow_style=False, width=10000)
 
